@@ -980,9 +980,39 @@ func typeOperandCase(rt *rapid.T) *modelCase {
 	}
 }
 
+// nameSlotCase: a bare name is replaced by something that is not a name
+// (a selector, a call). Where the grammar wants a name - left of ":=", key
+// and value of "for ... := range", declared names, labels, selectors' right
+// side - the replacement is inadmissible and the place stays as it is.
+func nameSlotCase(rt *rapid.T) *modelCase {
+	repl := rapid.SampledFrom([]string{"objq.fooq", "getq(fooq)", "fooq[0]", "(*fooq)", "barq"}).Draw(rt, "nameRepl")
+	uses := []string{
+		"fooq := 1", "fooq, other := 1, 2", "other, fooq := 1, 2", "fooq = 2", "fooq, other = 3, 4", "use(fooq)", "fooq++", "_ = x.fooq", "_ = fooq.x",
+		"for fooq := range items {\n\t}", "for _, fooq := range items {\n\t}", "for fooq = range items {\n\t}", "for i, fooq = range items {\n\t}",
+		"var fooq int", "var other = fooq", "const fooq = 1", "type fooq int", "fooq:\n\tfor {\n\t\tbreak fooq\n\t}", "_ = T{fooq: 1}", "_ = T{x: fooq}",
+		"_ = func(fooq int) int { return fooq }", "if fooq := get(); fooq != nil {\n\t}", "switch fooq := v.(type) {\n\tcase int:\n\t\t_ = fooq\n\t}", "go fooq()", "defer fooq()",
+		"select {\n\tcase fooq := <-ch:\n\t\t_ = fooq\n\tcase fooq = <-ch:\n\t}",
+	}
+	var body strings.Builder
+	n := rapid.IntRange(1, 5).Draw(rt, "nameUses")
+	for i := 0; i < n; i++ {
+		body.WriteString("\t{\n\t" + rapid.SampledFrom(uses).Draw(rt, fmt.Sprintf("nameUse%d", i)) + "\n\t}\n")
+	}
+	return &modelCase{
+		Spec:   ref.Spec{Holes: map[string]ref.HoleKind{}, Minus: "fooq", Plus: repl},
+		Patch:  "@@\n@@\n-fooq\n+" + repl + "\n",
+		Host:   "package names\n\nfunc f(items []int, v any, ch chan int) {\n" + body.String() + "}\n",
+		Origin: "synthetic:name-slot",
+	}
+}
+
 func (mc *modelCheck) run(t *testing.T) {
 	c := coll(mc.Prop)
 	checkN(t, func(rt *rapid.T) {
+		if mc.TypeOperand > 0 && rapid.IntRange(0, mc.TypeOperand-1).Draw(rt, "nameSlot") == 0 {
+			mc.judge(rt, c, nameSlotCase(rt))
+			return
+		}
 		if mc.TypeOperand > 0 && rapid.IntRange(0, mc.TypeOperand-1).Draw(rt, "typeOperand") == 0 {
 			mc.judge(rt, c, typeOperandCase(rt))
 			return
